@@ -451,8 +451,8 @@ def run(ck: Check):
                 case = G.gen_case(rng, 3, subst="MG94", site=rng.choice(["constant", "weibull"]), genetic_code=k, tip_states=ts,
                                   nsites=rng.randint(2, 3))
                 run_case(ck, drv, torch, case, failures, f"genetic-code/{G.GENETIC_CODES[k][0].replace(' ', '-')}")
-        for _ in range(60 if thorough else 14):
-            case = G.gen_case(rng, rng.choice([3, 4, 5]), general=True, nsites=rng.randint(3, 7), indices=rng.random() < 0.3)
+        for _ in range(100 if thorough else 24):
+            case = G.gen_case(rng, rng.choice([3, 4, 5]), general=True, nsites=rng.randint(3, 7), indices=rng.random() < 0.2)
             run_case(ck, drv, torch, case, failures, "general-datatype/" + case["subst"]["kind"])
         for _ in range(80 if thorough else 16):
             case = G.gen_case(rng, rng.choice([3, 4, 5]), subst=rng.choice(["JC69", "HKY", "GTR", "LG"]), indices=True)
@@ -564,6 +564,9 @@ def _run_case(ck, drv, torch, case, failures, bucket, lean=True, oracle=True):
     ck.case(key=key, bucket=bucket + "/" + case["subst"]["kind"], nontrivial=amb and impl is not None and math.isfinite(impl),
             sample={"newick": case["newick"], "config": config_key(case), "loglik": impl})
     ck.bucket("cfg/" + "/".join(str(x) for x in config_key(case)[1:4]))
+    tw = G.twin_features(case)
+    if tw:
+        ck.bucket(f"alignment/ambiguity-twin-columns/{case['datatype']}/amb={case.get('use_ambiguities')}/tipstates={bool(case.get('use_tip_states'))}")
     for feat in G.alignment_features(case):
         ck.bucket(f"alignment/{feat}/amb={case.get('use_ambiguities')}/tipstates={bool(case.get('use_tip_states'))}")
     if oracle and model is not None:
